@@ -115,6 +115,20 @@ def drive_validate(wd, drivebin, behs):
     return violations, len(lines), acts
 
 
+def stress(tier, wd, drivebin):
+    """Valid Discover and Announce requests from many keys at once against one real server. Returns (crashed, detail)."""
+    os.makedirs(wd, exist_ok=True)
+    p = subprocess.run([drivebin, "member-stress", "2" if tier == "quick" else "20"], cwd=wd, stdout=subprocess.PIPE,
+                       stderr=subprocess.PIPE, text=True, timeout=600)
+    if p.returncode == 0:
+        return False, p.stdout.strip().splitlines()[-1] if p.stdout.strip() else ""
+    err = p.stderr or ""
+    if "fatal error" in err or "panic:" in err:
+        first = [l for l in err.splitlines() if l.startswith(("fatal error", "panic:"))][:1]
+        return True, (first[0] if first else "crash") + " (discovery requests overlapping on one node)"
+    raise Inconclusive("membership stress driver failed (rc=%s): %s" % (p.returncode, err[-300:]))
+
+
 def run(tier, wd, drivebin, nrandom=None):
     rng = random.Random(seed() * 31 + 7)
     behs = behaviours(rng, nrandom if nrandom is not None else (40 if tier == "quick" else 600))
@@ -128,6 +142,11 @@ def check(prop, tier):
     mc = run_mc(wd, tier)
     log("[mc] Membership %s" % {k: v for k, v in mc.items()})
     violations, nev, acts, nb = run(tier, os.path.join(wd, "tv"), drivebin)
+    crashed, detail = stress(tier, os.path.join(wd, "stress"), drivebin)
+    if crashed:
+        violations.append(dict(what="the node process died", event={"a": "Stress", "detail": detail}, behaviour={}))
+    else:
+        log("[stress] " + detail)
     if violations:
         for v in violations:
             log("  discovery protocol: %s at %s" % (v["what"], json.dumps(v["event"])[:300]))
